@@ -96,7 +96,7 @@ PROPS = {
         "thorough_runs": {"C15": 400000},
         "thorough_wall": 900,
         "rule": "each run = a logged-on session (role x buffer x interval x CloseTimeout in {0,1ms,1s,30s}) ended by {peer Logout, local Logout then the "
-                "peer's answer after a generated delay, local Stop with the peer's answer at {same instant, 1 ms, CloseTimeout-1ms, a generated time, never}}, optionally begun while the library's own TestRequest is outstanding, with other inbound traffic between Stop and the answer, with an application event handler that returns false, or (a third of the local endings) with a reactive peer task that answers the Logout the moment it appears on the wire, so that the answer can be dispatched before Logout()/Stop() has returned; local calls run on their own task and must return; "
+                "peer's answer after a generated delay, local Stop with the peer's answer at {same instant, 1 ms, CloseTimeout-1ms, a generated time, never}}, optionally begun while the library's own TestRequest is outstanding, with other inbound traffic between Stop and the answer, with an application event handler that returns false (then one more handler registration after the exchange, which must return), or (a third of the local endings) with a reactive peer task that answers the Logout the moment it appears on the wire, so that the answer can be dispatched before Logout()/Stop() has returned; local calls run on their own task and must return; "
                 "oracle counts Logouts on the wire, EventLogout, IsLogged and the exact simulated instant at which Session.Context() is cancelled; distinct = "
                 "distinct context-switch-sequence hash; non-trivial = a preemption happened; model_states_visited lists (answer mode, CloseTimeout) pairs",
         "mandatory_probes": ["peer_logout", "local_logout", "stop_deadline_path", "stop_answer_path", "reactive_peer_answer"],
@@ -110,7 +110,7 @@ PROPS = {
         "thorough_wall": 900,
         "rule": "each run = a logged-on session (role x buffer x interval) with 0-3 all-types and 0-4 per-type outgoing handlers and as many incoming "
                 "handlers registered in a drawn order, each outgoing and incoming handler refusing at drawn call numbers (fault tape), the MessageStorage wrapper failing "
-                "0-2 drawn Save calls, all-types outgoing handlers that modify the message, handlers registered during a dispatch and by another task mid-traffic, 1-4 concurrent sender tasks x 1-5 messages of 2 types, 0-5 inbound messages of 7 types (incl. types that have a handled type as prefix), timer traffic; oracle joins the "
+                "0-2 drawn Save calls, all-types outgoing handlers that modify the message, handlers registered during a dispatch and by another task mid-traffic, 1-4 concurrent sender tasks x 1-5 messages of 2 types, 0-5 inbound messages of 12 kinds (incl. types that have a handled type as prefix, and types the session itself handles first: a ResendRequest for numbers never sent, a second Logon, damaged administrative messages), timer traffic; oracle joins the "
                 "store call log, the handler call log and the peer-side wire capture by sequence number; distinct = distinct context-switch-sequence hash; "
                 "non-trivial = a preemption happened or a fault (failed Save / refusal) fired",
         "mandatory_probes": ["blocked_send", "store_save_failed", "handler_refused_outgoing", "handler_refused_incoming", "all_types_refusal_then_type_handlers", "inbound_dispatch_checked", "outgoing_handlers_ran"],
